@@ -641,6 +641,7 @@ impl Linter {
             WalkDir::new(&path)
                 .into_iter()
                 .filter_map(Result::ok) // Filter out the Result and get DirEntry
+                .filter(|entry| !entry.file_type().is_dir()) // a directory may be named like a sql file
                 .map(|entry| {
                     let dirpath = entry.path().parent().unwrap().to_str().unwrap().to_string();
                     let files = vec![entry.file_name().to_str().unwrap().to_string()];
